@@ -339,6 +339,13 @@ def r10(ctx, prog):
     ctx.floor(R, 4)
 
 
+def r11(ctx, prog):
+    R = ctx.rule("C01.R11", "heap migration moves every page: mi_heap_absorb appends all queues 0..MI_BIN_FULL — a page left behind keeps xheap pointing at the heap structure "
+                            "that mi_heap_delete frees next, and a later free into it writes queue links into freed (possibly re-allocated, live) memory")
+    shared.absorb_covers_all_queues(ctx, R, prog)
+    ctx.floor(R, 1)
+
+
 def run(ctx):
     ctx.explanation = ("Static decision of C01's code-shaped necessary conditions (all CFG paths): pairing of the free-list pop/push with the used counter, conservation of blocks "
                        "between the three lists, free-list extension bounded by the reserve computed from the page's own area, page free only when all-free, span "
@@ -347,7 +354,7 @@ def run(ctx):
     for c in (["REL"] if ctx.tier == "quick" else ["REL", "SEC", "DBG"]):
         prog = ctx.prog(c)
         n0 = len(ctx.instances)
-        r1(ctx, prog); r2(ctx, prog); r3(ctx, prog); r4(ctx, prog); r5(ctx, prog); r6(ctx, prog); r7(ctx, prog); r8(ctx, prog); r9(ctx, prog); r10(ctx, prog)
+        r1(ctx, prog); r2(ctx, prog); r3(ctx, prog); r4(ctx, prog); r5(ctx, prog); r6(ctx, prog); r7(ctx, prog); r8(ctx, prog); r9(ctx, prog); r10(ctx, prog); r11(ctx, prog)
         if c != "REL":
             for i in ctx.instances[n0:]:
                 i["site"] += " [%s]" % c
